@@ -15,6 +15,12 @@ CHECKS = {
  "C09": ("exact", "round-trip and reference model: exact integer values (8/16-bit exhaustive), trunc + range check computed exactly, all routes (TryFrom by value/ref, ToPrimitive, NumCast, FromPrimitive) compared", "5 C09"),
  "C10": ("exact", "metamorphic/differential: every spelling of an operation evaluated on the same operands and compared bit-for-bit (NaN == NaN); algebraic identities compared bit-for-bit with the sign-of-zero known finding K1", "5 C10"),
  "C12": ("exact", "complete enumeration of the constant table against a 640-bit reference (correct rounding of both words); generated operands for MIN <= x <= MAX and the angle conversions (bound 6u^2 against a 384-bit reference)", "5 C12"),
+ "C13": ("exact", "sqrt/cbrt/hypot decided exactly through k-th powers of the result against (1±beta)^k x; powi against 640-bit binary powering with the (6|n|+16)u^2 bound, exact points, no-panic for every i32 incl. i32::MIN, powi(x,-n) == powi(x,n).recip() bit-for-bit", "5 C13"),
+ "C14": ("hp", "differential against a 384-bit reference (exp, exp2, expm1, exp(y ln x)) with the property's floors; exact points, overflow/underflow regions, sign/parity/invalid rules, panic = violation; all 2045 integer arguments of exp2 enumerated", "5 C14"),
+ "C15": ("hp", "differential against a 384-bit reference that forms x-1 / 1+x exactly; mixed absolute/relative floors as stated; log/log10 compared bit-for-bit with the quotient forms; log2(2^k) enumerated completely; domain errors", "5 C15"),
+ "C16": ("hp", "differential against a 384-bit reference with pi to 544 bits; absolute/relative/tan bounds as stated; sin_cos == (sin, cos) bit-for-bit; invalid-in/invalid-out over the complete non-finite pool", "5 C16"),
+ "C17": ("hp", "differential against a 384-bit reference (atan by argument halving, asin/acos via exact 1-x, 1+x); branch conventions of atan2 on all 72 axis combinations bit-for-bit; domain errors", "5 C17"),
+ "C18": ("hp", "differential against cancellation-free 384-bit reference forms; both signs held to the same bound; exact points and domain errors", "5 C18"),
  "C19": ("exact", "reference model: exact rational quotient (integer division of the dyadic operands) gives trunc/floor/ceil and the near-integer predicate; remainder compared with a - k*b exactly within 16u^2 max(|a|,|b|); integer operands exact", "5 C19"),
  "C20": ("exact", "round-trip oracles: numerals parsed back with f64::from_str must give the words bit-for-bit; precision forms equal the f64 renderings; serde tokens / value tree / JSON text / serde::de::value deserializers: Ok <=> valid pair, words preserved; malformed shapes rejected", "5 C20"),
 }
@@ -23,6 +29,7 @@ LEVEL_TEXT = {
  "exact": "Generated search (proptest-driven choice sequences, 16 deterministic workers, shrinking to a replay file) against an exact oracle: every comparison is made in exact dyadic-rational arithmetic, so there is no tolerance that could hide a violation or raise a false alarm. This is exploration, not proof: it shows the property on millions of adversarially constructed operands per run and reports how close to the bound the worst case came.",
 }
 
+LEVEL_TEXT["hp"] = "Generated search (proptest-driven choice sequences over argument strata built from the function's own range switches, table grid and domain edges) against a high-precision reference (oracle::Hp, 384 bits, agreeing with mpmath golden vectors to 2^-300 and re-verified at 512 bits on 1/64 of the cases). The comparison uses the property's own floors plus a 2^-250 relative slack for the oracle, 2^150 times smaller than any floor. Exploration, not proof: a violation confined to a sliver narrower than about 1e-7 of a stratum can escape the quick tier."
 NOT_YET = {}
 ALL = ["C%02d" % i for i in range(1, 21)]
 
